@@ -42,13 +42,17 @@ Record qrep := {
   r_complete_reset : bool; (* interleaved / blocked-random: `_complete` recomputed when trials are restored *)
   r_grouped_mod : bool;    (* grouped: cursor taken modulo min(group_size, len(ordering)) *)
   r_empty_reset : bool;    (* requeue clears the empty flag when it restores trials *)
-  r_pause_atomic : bool    (* pause(t) checks t against the clock BEFORE cancelling anything: a rejected pause
+  r_pause_atomic : bool;   (* pause(t) checks t against the clock BEFORE cancelling anything: a rejected pause
                               leaves the queue untouched *)
+  r_empty_guard : bool     (* interleaved / blocked-random: next_key raises QueueEmptyError when nothing is queued
+                              (`if self._complete or not self._ordering`) instead of ZeroDivisionError / IndexError *)
 }.
 Definition all_rep : qrep := {| r_cancel_once := true; r_trim_log := true; r_complete_reset := true;
-                                r_grouped_mod := true; r_empty_reset := true; r_pause_atomic := true |}.
+                                r_grouped_mod := true; r_empty_reset := true; r_pause_atomic := true;
+                                r_empty_guard := true |}.
 Definition no_rep : qrep := {| r_cancel_once := false; r_trim_log := false; r_complete_reset := false;
-                               r_grouped_mod := false; r_empty_reset := false; r_pause_atomic := false |}.
+                               r_grouped_mod := false; r_empty_reset := false; r_pause_atomic := false;
+                               r_empty_guard := false |}.
 
 Record qstate := {
   q_pol : policy;
@@ -128,7 +132,7 @@ Definition next_key (R : qrep) (q : qstate) : nk :=
     match o with [] => NEmpty | k :: _ => NKey k q end
   | PInter keep =>
     if q_complete q then NEmpty
-    else if zlen o =? 0 then NError                       (* ZeroDivisionError *)
+    else if zlen o =? 0 then (if r_empty_guard R then NEmpty else NError)   (* before the repair: ZeroDivisionError *)
     else if keep then
       let i' := (q_i q + 1) mod (zlen o) in
       match znth o i' with
@@ -153,6 +157,7 @@ Definition next_key (R : qrep) (q : qstate) : nk :=
     end
   | PBlockedRandom =>
     if q_complete q then NEmpty
+    else if r_empty_guard R && (zlen o =? 0) then NEmpty  (* before the repair: IndexError (pop from an empty block) *)
     else
       let '(ip, pm, ok) :=
         match q_iperm q with
